@@ -788,7 +788,12 @@ type pgen struct {
 }
 
 // a timestamp in units of the block's date granularity
-func (g *pgen) ts() int64 { return (1200000000000 + g.r.I64n(500000000000)) / g.dg }
+func (g *pgen) ts() int64 {
+	if g.r.Chance(4) {
+		return 0 // present with the value zero: the epoch
+	}
+	return (1200000000000 + g.r.I64n(500000000000)) / g.dg
+}
 
 func (g *pgen) sid(s string) int64 {
 	if i, ok := g.ix[s]; ok {
@@ -1027,6 +1032,9 @@ func genPFile(r *Rng, maxBlocks, maxN int) *PFile {
 	}
 	if r.Chance(50) {
 		v := 1300000000 + r.I64n(400000000)
+		if r.Chance(12) {
+			v = 0 // present with the value zero (the epoch) is not absent
+		}
 		h.RTs = &v
 	}
 	if r.Chance(50) {
